@@ -89,10 +89,26 @@ def subsets(r, tier):
     return out
 
 
+def documented_sets():
+    """the 222 documented name sets in every momentum spelling"""
+    out = []
+    for az in [(a, b) for a in ("x", "px") for b in ("y", "py")] + [("rho", "phi"), ("pt", "phi")]:
+        out.append(az)
+        for lon in ("z", "pz", "theta", "eta"):
+            out.append(az + (lon,))
+            for tmp in ("t", "E", "e", "energy", "tau", "M", "m", "mass"):
+                out.append(az + (lon, tmp))
+    return out
+
+
 def correspondence(ctx):
     r = C.rng(ctx.seed, "c06")
     sets = subsets(r, ctx.tier)
     reqs, reals = [], []
+    for s in documented_sets():          # every documented set through every constructor, in every tier
+        for c in CTORS:
+            reqs.append(f"{c} {','.join(s)}")
+            reals.append(real(c, s))
     for s in sets:
         for c in (CTORS if len(s) <= 3 or ctx.tier == "thorough" else ["obj", r.choice(CTORS[1:7]), r.choice(CTORS[7:])]):
             if not s and c != "obj":
